@@ -152,6 +152,8 @@ class Eval:
         r = self._block(h.body, env)
         if not isinstance(r, _Ret):
             raise AnalysisError(f"handler for {node.cls.name} does not return on the evaluated path")
+        if isinstance(r.value, str):
+            return Str([r.value])
         if not isinstance(r.value, Str):
             raise AnalysisError(f"handler for {node.cls.name} returns a non-string shape")
         return r.value
@@ -203,6 +205,8 @@ class Eval:
             return None
         if isinstance(st, ast.Assert) or isinstance(st, ast.Pass):
             return None
+        if isinstance(st, ast.Raise):
+            raise AnalysisError("handler raises: " + ast.unparse(st)[:60])
         raise AnalysisError(f"fmt_eval: unsupported statement `{ast.unparse(st)[:60]}`")
 
     def _store(self, t, v, env):
@@ -319,6 +323,8 @@ class Eval:
                 }[type(op)]
             if isinstance(a, str) and isinstance(b, str) and isinstance(op, (ast.Eq, ast.NotEq)):
                 return (a == b) if isinstance(op, ast.Eq) else (a != b)
+            if isinstance(a, str) and isinstance(b, str) and isinstance(op, (ast.In, ast.NotIn)):
+                return (a in b) if isinstance(op, ast.In) else (a not in b)
             raise AnalysisError(f"fmt_eval: undecidable comparison `{ast.unparse(e)}`")
         if isinstance(e, ast.BoolOp):
             vals = [self._expr(v, env) for v in e.values]
@@ -402,6 +408,15 @@ class Eval:
                 text = base if isinstance(base, str) else self.render(base)
                 return text.startswith(pre) if e.func.attr == "startswith" else text.endswith(pre)
             raise AnalysisError("fmt_eval: undecidable startswith")
+        if isinstance(e.func, ast.Attribute) and e.func.attr == "get" and len(e.args) in (1, 2):
+            base = self._expr(e.func.value, env)
+            if isinstance(base, dict):
+                k = self._expr(e.args[0], env)
+                if isinstance(k, Str):
+                    k = "".join(k.flat()) if all(isinstance(q, str) for q in k.flat()) else None
+                if k is None:
+                    raise AnalysisError("fmt_eval: dict.get with opaque key")
+                return base.get(k, self._expr(e.args[1], env) if len(e.args) == 2 else None)
         if fn == "len":
             x = self._expr(e.args[0], env)
             if isinstance(x, (list, tuple)):
